@@ -298,11 +298,11 @@ fn run_conc_check(context: &CheckContext, mut outcome: CheckOutcome) -> CheckOut
             return outcome;
         }
     }
-    if matches!(context.property.as_str(), "C03" | "C05" | "C09" | "C10" | "C16") {
+    if matches!(context.property.as_str(), "C03" | "C05" | "C09" | "C10" | "C15" | "C16") {
         // bulk histories against a plain map (VOLUME engine)
         let run_case: std::sync::Arc<dyn Fn(&crate::volume::VolCase) -> CaseResult + Send + Sync> = std::sync::Arc::new(|case: &crate::volume::VolCase| crate::volume::vol_case_result(case));
         let (report, found) = run_campaign_with(context, "volume", "VOLUME",
-            "generated bulk histories in a cache far from full, against a plain map: 1 500 - 20 000 keys (up to 100 000 in the thorough tier) are put unawaited (every n-th with a TTL of 1..span seconds), a third is upserted (new value, lower weight, TTL set or removed), a quarter deleted, an eighth put again, then the clock walks second by second past half and then all of the deadlines; after each phase every key is read and compared, the store, the weight map and the expiry index must hold exactly the model's keys, the total weight must be their sum, and every counter (hits, misses, keys added / deleted, weight added / removed, access records) must be exact; configurations with 2 - 1024 expiry shards, queues of 1 - 4096, pools of 1 - 32; non-trivial = at least 1 000 commands executed",
+            "generated bulk histories in a cache far from full, against a plain map: 1 500 - 20 000 keys (up to 100 000 in the thorough tier) are put unawaited (every n-th with a TTL of 1..span seconds), a third is upserted (new value, lower weight, TTL set or removed), a quarter deleted, an eighth put again, then the clock walks second by second past half and then all of the deadlines; after each phase every key is read and compared, the store, the weight map and the expiry index must hold exactly the model's keys, the total weight must be their sum, and every counter (hits, misses, keys added / deleted, weight added / removed, access records) must be exact; configurations with 2 - 1024 expiry shards, queues of 1 - 4096, pools of 1 - 32, access buffers of 1 - 1000 (every record handed over must also be applied to the sketch); non-trivial = at least 1 000 commands executed",
             if thorough { 160 } else { 24 }, std::sync::Arc::new(move || crate::volume::vol_case_strategy(thorough)), run_case, false, context.workers.min(8));
         outcome.reports.push(report);
         if let Some((case, failure)) = found {
